@@ -98,15 +98,19 @@ def run(ctx):
         for fmt, enc, dec_ in ((0, pinblock.encode_pinblock_iso_0, pinblock.decode_pinblock_iso_0),
                                (3, pinblock.encode_pinblock_iso_3, pinblock.decode_pinblock_iso_3)):
             for q in neigh:
-                call(dec_, enc(pin, pan), pan)          # leave whatever state a decode under `pan` leaves
+                e0 = call(enc, pin, pan)
+                if e0[0] == "OK":
+                    call(dec_, e0[1], pan)          # leave whatever state a decode under `pan` leaves
                 evals += 1
-                r = call(dec_, enc(pin, q), q)
+                e1 = call(enc, pin, q)
+                r = call(dec_, e1[1], q) if e1[0] == "OK" else e1
                 if r != ("OK", pin):
                     bad("format %d round trip under a PAN neighbouring an earlier one" % fmt, {"fn": "iso_%d" % fmt, "args": [pin, pan, q]}, pin, repr(r))
         key = rng.randbytes(16)
         for q in [rnd_digits(rng, 13)] + ["0" * z + "".join(rng.choice("123456789") for _ in range(n - z)) for n in (13, 16, 19) for z in (1, 2, 3)]:
             evals += 1
-            r = call(pinblock.decipher_pinblock_iso_4, key, pinblock.encipher_pinblock_iso_4(key, pin, q), q)
+            e4 = call(pinblock.encipher_pinblock_iso_4, key, pin, q)
+            r = call(pinblock.decipher_pinblock_iso_4, key, e4[1], q) if e4[0] == "OK" else e4
             if r != ("OK", pin):
                 bad("format 4 round trip (PAN with leading zeros)", {"fn": "encipher_4", "args": [key.hex(), pin, q]}, pin, repr(r))
     bump("pan_neighbours")
